@@ -26,3 +26,38 @@ def parseTypeText (fl : Flags) (s : Text) : Option TypeRef :=
   | .error _ => none
 
 end PyGql.Parse
+
+namespace PyGql.Parse
+open PyGql PyGql.Ast
+
+/-- a `GraphQLSyntaxError` of the composed pipeline: raised by the lexer or by the parser -/
+inductive TextErr where
+  | lex (e : Lex.SynErr)
+  | parse (e : SynErr)
+  deriving Repr
+
+/-- `GraphQLSyntaxError.position` -/
+def TextErr.pos : TextErr → Nat
+  | .lex e => e.pos
+  | .parse e => e.pos
+
+/-- run the lexer, then a token-level entry point, keeping the error.
+    (The real `Parser` pulls tokens lazily: for a text with BOTH a lexical error and an earlier grammatical error it
+    reports the grammatical one, this composition the lexical one.  Either way the text is rejected; the position
+    statements below hold for both.) -/
+def withLexer {α} (p : List Tok → Except SynErr α) (s : Text) : Except TextErr α :=
+  match Lex.lexAll s with
+  | .ok toks =>
+    match p toks with
+    | .ok a => .ok a
+    | .error e => .error (.parse e)
+  | .error e => .error (.lex e)
+
+/-- `parse(text, **flags)` with its error -/
+def parseTextE (fl : Flags) (s : Text) : Except TextErr Document := withLexer (parseDocument fl) s
+/-- `parse_value(text)` with its error -/
+def parseValueTextE (fl : Flags) (s : Text) : Except TextErr Value := withLexer (parseValue fl) s
+/-- `parse_type(text)` with its error -/
+def parseTypeTextE (fl : Flags) (s : Text) : Except TextErr TypeRef := withLexer (parseType fl) s
+
+end PyGql.Parse
